@@ -442,7 +442,7 @@ func c01Pairs(c *Ctx) {
 func c01Threshold(c *Ctx) {
 	r := c.R
 	key := genKeys(r, 1)[0] << 16
-	target := []int{4095, 4096, 4097, 65535, 65536}[r.Intn(5)]
+	target := []int{4095, 4096, 4097, 4097, 65535, 65536, 32768, 16384, 8192}[r.Intn(9)]
 	op := binOps[r.Intn(4)]
 	// choose the result set R with |R| = target, then derive A and B so that A op B = R
 	var R *ISet
@@ -451,8 +451,26 @@ func c01Threshold(c *Ctx) {
 		if target == 65535 {
 			R.Remove(edgeVal16(r))
 		}
-	} else if r.Chance(0.5) {
+	} else if r.Chance(0.33) {
 		R = ivsToSet(spreadN(r, target))
+	} else if r.Chance(0.5) {
+		// a few runs plus scattered single values, together exactly the target (a run-like operand meets
+		// an array-like operand and their union lands on the threshold with a large run count)
+		R = NewISet()
+		k := uint64(r.Range(1, minU(3000, uint64(target)-1)))
+		pos := r.Range(0, 2000)
+		for k > 0 {
+			l := minU(k, r.Range(1, 1500))
+			R.AddRange(pos, pos+l-1)
+			pos += l + r.Range(2, 300)
+			k -= l
+		}
+		for R.Card() < uint64(target) {
+			R.Add(r.Range(pos+2, 65535))
+		}
+		if mx, _ := R.Max(); mx > 65535 || R.Card() != uint64(target) {
+			R = ivsToSet(spreadN(r, target))
+		}
 	} else {
 		R = NewISet()
 		// runs summing to target
@@ -510,6 +528,20 @@ func c01Threshold(c *Ctx) {
 
 func splitSet(r *Rng, s *ISet) (*ISet, *ISet) {
 	a, b := NewISet(), NewISet()
+	if r.Chance(0.35) {
+		// runs to one side, isolated values to the other
+		for _, v := range s.iv {
+			if v.Hi-v.Lo >= 3 {
+				a.iv = append(a.iv, v)
+			} else {
+				b.iv = append(b.iv, v)
+			}
+		}
+		if r.Chance(0.5) {
+			a, b = b, a
+		}
+		return ivsToSet(a.iv), ivsToSet(b.iv)
+	}
 	for _, v := range s.iv {
 		if v.Hi-v.Lo > 8 && r.Chance(0.5) {
 			mid := r.Range(v.Lo, v.Hi-1)
